@@ -415,16 +415,126 @@ def check_signatures(ctx, table, rule="C04.S", only=None):
                   sample={"mnemonic": mn, "signature": got})
     if only is not None:
         return
-    # _initialize_array, _set_register, _get_register, _set_array_entry, _expand_array_part bodies
-    helper_exp = ref["helpers"]
-    for name, exp in sorted(helper_exp.items()):
-        fn = ex.methods.get(name)
-        if fn is None:
-            ctx.error("C04.S", f"Executor.{name} not found")
-            continue
-        ctx.fn(f"Executor.{name}")
-        got = helper_shape(ctx, ex, name, fn)
-        ctx.check("C04.S", f"{name}:shape", got == exp, f"Executor.{name} is `{got}`; reference `{exp}`", repo.loc(ex.module, fn), sample={"helper": name, "shape": got})
+    check_state_accessors(ctx, rule)
+
+
+def check_state_accessors(ctx, rule="C04.S"):
+    """The small state accessors of the executor are executed abstractly (nqsa/circuit.py) on an executor object with two
+    applications, modelled register banks and a modelled array store: each must touch exactly the cell the instruction names,
+    of the application it is given (whatever it is written as)."""
+    from .. import circuit as C
+    from ..model import EnumMember
+    repo, ev = ctx.repo, ctx.ev
+    ex = executor(ctx)
+    rn = repo.get_class("netqasm.lang.encoding", "RegisterName")
+    rmem = ev.enum_members(rn)
+    opm = repo.module("netqasm.lang.operand")
+    R_, ADDR, ENTRY, SLICE = (opm.classes[n_] for n_ in ("Register", "Address", "ArrayEntry", "ArraySlice"))
+
+    class Store:
+        """model of the per-application array store: records what is asked of it"""
+        _nqsa_model = True
+
+        def __init__(self, tag):
+            self.tag, self.log = tag, []
+
+        def __getitem__(self, key):
+            self.log.append(("get", key))
+            return 50000 + 10000 * self.tag + 100 * key[0] + key[1] if isinstance(key, tuple) and all(isinstance(k_, int) for k_ in key) else ("cell", self.tag, key)
+
+        def __setitem__(self, key, value):
+            self.log.append(("set", key, value))
+
+        def _get_array(self, address):
+            self.log.append(("array", address))
+            return ("array", self.tag, address)
+
+        def init_new_array(self, address, length):
+            self.log.append(("init", address, length))
+
+    def fresh():
+        it = C.Interp(repo, ev, C.Scenario(), ex)
+        banks = {app: {it._hashable(EnumMember(rn.qualname, n_, v_)): [1000 * app + 100 * v_ + i for i in range(16)] for n_, v_ in rmem.items()} for app in (0, 1)}
+        stores = {0: Store(0), 1: Store(1)}
+        o = C.object_from_init(repo, ex, {"_registers": banks, "_app_arrays": stores}, kind="self")
+        return it, o, banks, stores
+
+    def reg(name, index):
+        return C.Obj(R_, {"name": EnumMember(rn.qualname, name, rmem[name]), "index": index})
+
+    def run(mname, *args, **kwargs):
+        it, o, banks, stores = fresh()
+        r_ = repo.lookup(ex, mname)
+        if r_ is None:
+            raise AnalysisError(f"Executor.{mname} not found")
+        ctx.fn(f"Executor.{mname}")
+        try:
+            out = it.call_function(r_[0].module, r_[1], list(args), kwargs, self_obj=o)
+        except C.EvalRaise as ex_:
+            out = ("raises", str(ex_))
+        return out, banks, stores, it
+
+    def slice_eq(x, lo, hi):
+        return isinstance(x, slice) and (x.start, x.stop, x.step) == (lo, hi, None)
+
+    try:
+        # registers
+        ok = True
+        for app in (0, 1):
+            for name in rmem:
+                out, banks, _s, it = run("_get_register", app_id=app, register=reg(name, 3))
+                ok = ok and out == 1000 * app + 100 * rmem[name] + 3
+        ctx.check(rule, "_get_register:shape", ok, "Executor._get_register does not read cell [app][bank][index] of the register it is given", ex.loc(), sample={"helper": "_get_register"})
+        ok = True
+        for app in (0, 1):
+            out, banks, _s, it = run("_set_register", app_id=app, register=reg("M", 5), value=777)
+            key = it._hashable(EnumMember(rn.qualname, "M", rmem["M"]))
+            flat = {(a_, k_, i_): v_ for a_ in banks for k_ in banks[a_] for i_, v_ in enumerate(banks[a_][k_])}
+            want = {(a_, k_, i_): (777 if (a_, k_, i_) == (app, key, 5) else v_) for (a_, k_, i_), v_ in fresh_flat(repo, ev, ex, rn, rmem, C).items()}
+            ok = ok and flat == want
+        ctx.check(rule, "_set_register:shape", ok, "Executor._set_register does not write exactly cell [app][bank][index] of the register it is given", ex.loc(), sample={"helper": "_set_register"})
+        # array parts
+        A5 = C.Obj(ADDR, {"address": 5})
+        cases = []
+        out, *_ = run("_expand_array_part", app_id=1, array_part=C.Obj(ENTRY, {"address": A5, "index": 7}))
+        cases.append(out == (5, 7))
+        out, *_ = run("_expand_array_part", app_id=1, array_part=C.Obj(ENTRY, {"address": A5, "index": reg("R", 2)}))
+        cases.append(out == (5, 1000 + 100 * rmem["R"] + 2))
+        out, *_ = run("_expand_array_part", app_id=0, array_part=C.Obj(SLICE, {"address": A5, "start": 2, "stop": reg("C", 4)}))
+        cases.append(isinstance(out, tuple) and len(out) == 2 and out[0] == 5 and slice_eq(out[1], 2, 100 * rmem["C"] + 4))
+        out, *_ = run("_expand_array_part", app_id=0, array_part=C.Obj(SLICE, {"address": A5, "start": reg("R", 1), "stop": 9}))
+        cases.append(isinstance(out, tuple) and len(out) == 2 and out[0] == 5 and slice_eq(out[1], 100 * rmem["R"] + 1, 9))
+        # an undefined index register is a fault
+        it, o, banks, stores = fresh()
+        banks[0][it._hashable(EnumMember(rn.qualname, "R", rmem["R"]))][2] = None
+        r_ = repo.lookup(ex, "_expand_array_part")
+        for part in (C.Obj(ENTRY, {"address": A5, "index": reg("R", 2)}), C.Obj(SLICE, {"address": A5, "start": 0, "stop": reg("R", 2)}), C.Obj(SLICE, {"address": A5, "start": reg("R", 2), "stop": 3})):
+            try:
+                C.Interp(repo, ev, C.Scenario(), ex).call_function(r_[0].module, r_[1], [], {"app_id": 0, "array_part": part}, self_obj=o)
+                cases.append(False)
+            except C.EvalRaise:
+                cases.append(True)
+        ctx.check(rule, "_expand_array_part:shape", all(cases),
+                  f"Executor._expand_array_part does not turn an entry / slice into (address, index | slice(start, stop)) with register bounds read from the given application, "
+                  f"faulting on an undefined register (cases {cases})", ex.loc(), sample={"helper": "_expand_array_part", "cases": cases})
+        # array store accessors
+        E57 = C.Obj(ENTRY, {"address": A5, "index": 7})
+        out, _b, stores, _i = run("_get_array_entry", app_id=1, array_entry=E57)
+        ctx.check(rule, "_get_array_entry:shape", out == 50000 + 10000 + 500 + 7 and not stores[0].log, f"Executor._get_array_entry reads {out!r}, not entry (5, 7) of application 1", ex.loc(), sample={"helper": "_get_array_entry"})
+        out, _b, stores, _i = run("_set_array_entry", app_id=1, array_entry=E57, value=42)
+        ctx.check(rule, "_set_array_entry:shape", stores[1].log == [("set", (5, 7), 42)] and not stores[0].log, f"Executor._set_array_entry does {stores[1].log + stores[0].log!r}, not `arrays[1][5, 7] = 42`", ex.loc(), sample={"helper": "_set_array_entry"})
+        out, _b, stores, _i = run("_get_array", app_id=1, address=A5)
+        ctx.check(rule, "_get_array:shape", out == ("array", 1, 5) and not stores[0].log, f"Executor._get_array returns {out!r}, not array 5 of application 1", ex.loc(), sample={"helper": "_get_array"})
+        out, _b, stores, _i = run("_initialize_array", app_id=1, address=A5, length=3)
+        ctx.check(rule, "_initialize_array:shape", stores[1].log == [("init", 5, 3)] and not stores[0].log, f"Executor._initialize_array does {stores[1].log + stores[0].log!r}, not init_new_array(5, 3) for application 1", ex.loc(), sample={"helper": "_initialize_array"})
+    except AnalysisError as ex_:
+        ctx.error(rule, f"state accessors cannot be evaluated: {ex_}")
+
+
+def fresh_flat(repo, ev, ex, rn, rmem, C):
+    from ..model import EnumMember
+    it = C.Interp(repo, ev, C.Scenario(), ex)
+    return {(app, it._hashable(EnumMember(rn.qualname, n_, v_)), i): 1000 * app + 100 * v_ + i for app in (0, 1) for n_, v_ in rmem.items() for i in range(16)}
 
 
 def _key_roles(f, pk):
